@@ -3,7 +3,7 @@ import ast
 
 from ..astx import (calls_in, dotted, norm, src, iter_nodes, aliases_of, assigned_targets,
                     assigned_names, const_value, is_const, parent_chain)
-from ..lib import (cfg_nodes_with_call, node_calls, returns, stmt_assigns_attr, callee_last,
+from ..lib import (call_arg, relation, truth, other, cmp_views, core, holds_region, conditions, eval_conditions, relation_tests, atom_key, expand_condition, mode_mismatch_conditions, cfg_nodes_with_call, node_calls, returns, stmt_assigns_attr, callee_last,
                    guard_region, find_test_nodes, compare_parts, is_name, is_self_attr)
 from ..linear import lin, ctext, Lin, slice_bounds
 from ..loader import AnalysisError
@@ -280,9 +280,9 @@ def check_freshlen(c, repo):
             if isinstance(n.ast, ast.Assign) and norm(n.ast.value) == 'len(%s)' % wpar:
                 for t in g.nodes:
                     if t.kind == 'test' and n in guard_region(g, t, 'true'):
-                        cp = compare_parts(t.ast)
-                        if cp and is_name(cp[0], fpar) and isinstance(cp[1], (ast.Gt, ast.GtE)) and norm(cp[2]) == 'len(%s)' % wpar:
-                            ok = True
+                        for a, op, b in cmp_views(t.ast):
+                            if is_name(a, fpar) and op in (ast.Gt, ast.GtE) and norm(b) == 'len(%s)' % wpar:
+                                ok = True
             c.check(ok, f, n.ast, 'freshlen is only ever clamped to len(window), never reduced otherwise',
                     witness=norm(n.ast), tag='freshlen-clamp')
         if n.kind == 'stmt' and isinstance(n.ast, (ast.Assign, ast.AugAssign)) and wpar in assigned_names(n.ast):
